@@ -1,6 +1,7 @@
 \* quick tier, exhaustive: every well-formed list over instants 0..4 x instants x chains x first-element forms x answer scripts (one repetition)
 CONSTANTS
   ShardLists <- MCAllLists
+  Deployments <- MCDepFew
   Instants = {0, 1, 2, 3, 4}
   Scenes = {"submit"}
   ChainKinds = {"x509", "precert", "precertPreIssuer"}
